@@ -16,6 +16,7 @@
 #include "ccl/ops/RSOperations.h"
 #include "ccl/api/RSFormJA.h"
 #include <set>
+#include <map>
 #ifndef PART
 #define PART 1
 #endif
@@ -124,6 +125,14 @@ extern "C" void harness_main() {
   for (const auto pid : opsList) oss.Ops().InitFor(pid, ops::Type::rsMerge, nullptr);
   std::vector<PictID> everyone{b1, b2}; everyone.insert(everyone.end(), opsList.begin(), opsList.end());
   std::set<PictID> hasResult;
+  std::set<PictID> unsaved;                                // results with a user edit that has not been saved yet
+  std::map<PictID, std::string> lastContent;             // formal content of a stored result when it was last compared
+  auto contentOf = [&](PictID pid) {
+    std::string o;
+    const auto* d = dynamic_cast<const RSForm*>(oss.Src().DataFor(pid));
+    if (d != nullptr) for (const auto u : d->List()) o += d->GetRS(u).alias + "=" + d->GetRS(u).definition + ";";
+    return o;
+  };
   std::vector<std::pair<PictID, int>> userAdditions;     // number of constituents the user added to a result
   for (int step = 0; step < K; ++step) {
     const int op = pick(5, "op");
@@ -171,15 +180,30 @@ extern "C" void harness_main() {
           sym_assert(got == want, "result-content-equals-synthesis");
         }
       };
-      if (op == 2 && ok) { check(pid); sym_reach("executed"); }
-      if (op == 3) { for (const auto q : opsList) check(q); sym_reach("executed-all"); }
+      if (op == 2 && ok) {
+        check(pid); sym_reach("executed");
+        // an unsaved user edit of pid's own result is announced by the source manager while pid is re-executed
+        // (the edit is carried over into the new result): every operation below pid that holds a result must then
+        // stop reporting done.  (A change of pid's result caused only by re-synthesis is written under
+        // do-not-disturb and is NOT an announced change: nothing is asserted for it.)
+        const std::string now = contentOf(pid);
+        if (unsaved.count(pid))
+          for (const auto q : opsList) {
+            const auto ps = oss.Graph().ParentsOf(q);
+            if (hasResult.count(q) && (ps[0] == pid || ps[1] == pid)) sym_assert(oss.Ops().StatusOf(q) != ops::Status::done, "child-of-operation-with-announced-user-edit-not-done");
+          }
+        unsaved.erase(pid);
+        lastContent[pid] = now;
+      }
+      if (op == 3) { for (const auto q : opsList) { check(q); if (hasResult.count(q)) lastContent[q] = contentOf(q); } unsaved.clear(); sym_reach("executed-all"); }
       break;
     }
     default: {   // the user adds a constituent of their own to an existing result
       const PictID pid = opsList[(size_t)pick((int)opsList.size(), "add-to")];
       if (!hasResult.count(pid) || oss.Src()(pid)->src == nullptr) break;
       schemaOf(pid).Emplace(CstType::term, "X1");
-      sourceOf(pid).TriggerSave();
+      if (pick(2, "save-addition")) sourceOf(pid).TriggerSave();     // the edit may also stay unsaved until the next execution
+      else unsaved.insert(pid);
       userAdditions.emplace_back(pid, 1);
       sym_reach("user-addition");
       break;
